@@ -396,45 +396,64 @@ theorem first_frame_error_needs_guards :
 example : ((Map.new .server 1 1).handleFrames true [.stream 8, .ack true, .ping]).2 = some .limit := by decide
 example : ((Map.new .client 1 1).handleFrames false [.ping, .stop 3, .stream 1]).2 = some .stateInvalidSend := by decide
 
-/-- **covering_config_is_pointwise_max.**  `configCoveringAdvertised` raises each incoming stream
-    limit of the (populated) Config to the transport parameter advertised for the same stream type
-    (fields regenerated from the source). -/
-theorem covering_config_is_pointwise_max (conf p : Limits) :
-    coverConfig conf p = ⟨max conf.bidi p.bidi, max conf.uni p.uni⟩ := coverConfig_eq conf p
+/-- **covering_config_is_advertised.**  `configCoveringAdvertised` sets each incoming stream limit of the
+    Config to the transport parameter advertised for the same stream type, whatever the Config said
+    (shape and fields regenerated from the source; /repo ad4f2a6). -/
+theorem covering_config_is_advertised (conf p : Limits) : coverConfig conf p = p := coverConfig_eq conf p
 
-/-- full statement: for every constructor, Config and spec, the limit the streams map enforces is the
-    one the peer was told -/
-def enforced_limit_equals_advertised_full : Prop :=
-  ∀ (k : ConnKind) (conf spec : Limits), enforcedLimits k conf spec = advertisedLimits k conf spec
+/-- the shape before ad4f2a6 (`c.X = max(c.X, p.<field>)`) is the pointwise maximum -/
+theorem covering_config_old_shape_is_pointwise_max (conf p : Limits) :
+    coverConfigMax conf p = ⟨max conf.bidi p.bidi, max conf.uni p.uni⟩ := coverConfigMax_eq conf p
 
-/-- **enforced_limit_equals_advertised_partial.**  It holds for servers and plain clients, and for a
-    spec-driven client whenever the populated Config does not exceed the spec's parameters; in general
-    the enforced limit is `max(populated Config, advertised)` per stream type, never below the
-    advertised one. -/
-theorem enforced_limit_equals_advertised_partial (k : ConnKind) (conf spec : Limits) :
-    (k ≠ .uclient → enforcedLimits k conf spec = advertisedLimits k conf spec) ∧
-    (k = .uclient →
-      (enforcedLimits k conf spec).bidi = max (populate conf).bidi (advertisedLimits k conf spec).bidi ∧
-      (enforcedLimits k conf spec).uni = max (populate conf).uni (advertisedLimits k conf spec).uni) ∧
+/-- full statement for a given `configCoveringAdvertised`: for every constructor, Config and spec, the
+    limit the streams map enforces is the one the peer was told -/
+def EnforcedEqualsAdvertised (cover : Limits → Limits → Limits) : Prop :=
+  ∀ (k : ConnKind) (conf spec : Limits), enforcedLimitsWith cover k conf spec = advertisedLimits k conf spec
+
+/-- **enforced_limit_equals_advertised.**  For servers, plain clients AND spec-driven clients, every
+    Config (0, negative, above 2^60, …) and every spec (parameter listed or not): the incoming stream
+    limits the streams map is created with are exactly initial_max_streams_bidi / _uni handed to TLS. -/
+theorem enforced_limit_equals_advertised (k : ConnKind) (conf spec : Limits) :
+    enforcedLimits k conf spec = advertisedLimits k conf spec := by
+  cases k <;> simp only [enforcedLimits, enforcedLimitsWith, advertisedLimits, coverConfig_eq]
+
+theorem enforced_limit_equals_advertised_full : EnforcedEqualsAdvertised coverConfig :=
+  enforced_limit_equals_advertised
+
+/-- with the old shape it still holds for servers and plain clients, and for a spec-driven client
+    whenever the populated Config does not exceed the spec's parameters … -/
+theorem old_shape_partial (k : ConnKind) (conf spec : Limits) :
+    (k ≠ .uclient → enforcedLimitsWith coverConfigMax k conf spec = advertisedLimits k conf spec) ∧
     (k = .uclient → (populate conf).bidi ≤ (specParams spec).bidi → (populate conf).uni ≤ (specParams spec).uni →
-      enforcedLimits k conf spec = advertisedLimits k conf spec) := by
-  refine ⟨?_, ?_, ?_⟩
+      enforcedLimitsWith coverConfigMax k conf spec = advertisedLimits k conf spec) := by
+  refine ⟨?_, ?_⟩
   · intro hk; cases k <;> first | rfl | exact absurd rfl hk
-  · intro hk; subst hk
-    simp only [enforcedLimits, advertisedLimits, coverConfig_eq]; exact ⟨trivial, trivial⟩
   · intro hk h1 h2; subst hk
-    simp only [enforcedLimits, advertisedLimits, coverConfig_eq]
+    simp only [enforcedLimitsWith, advertisedLimits, coverConfigMax_eq]
     have e1 : max (populate conf).bidi (specParams spec).bidi = (specParams spec).bidi := by omega
     have e2 : max (populate conf).uni (specParams spec).uni = (specParams spec).uni := by omega
     rw [e1, e2]
 
-/-- The full statement is false on the unchanged tree (finding `C15-config-above-spec`): a client
-    driven by a spec that advertises 16 streams per type (the Firefox parrots) with a default Config
-    enforces 100. -/
-theorem enforced_limit_equals_advertised_witness : ¬ enforced_limit_equals_advertised_full := by
+/-- **old_max_shape_violates.**  … but the full statement is FALSE for the old shape (fixed finding
+    `C15-config-above-spec`, regression corpus/C15/sglue/01-config-above-spec.ops): a client driven by a
+    spec that advertises 16 streams per type (the Firefox parrots) with a default Config enforced 100.
+    A tree that goes back to `max` regenerates `coverKeepsConfig = true`, `coverConfig` becomes
+    `coverConfigMax` and `enforced_limit_equals_advertised` stops checking. -/
+theorem old_max_shape_violates : ¬ EnforcedEqualsAdvertised coverConfigMax := by
   intro h
   have := h .uclient ⟨0, 0⟩ ⟨16, 16⟩
   revert this; decide
+
+/-- of the two shapes gofacts accepts (same-type source fields), exactly the `advertised` one gives the
+    full statement -/
+theorem enforced_equals_advertised_iff_shape (keeps : Bool) :
+    EnforcedEqualsAdvertised (coverConfigWith keeps ["MaxBidiStreamNum"] ["MaxUniStreamNum"]) ↔ keeps = false := by
+  cases keeps with
+  | true => exact ⟨fun h => absurd h old_max_shape_violates, fun h => by cases h⟩
+  | false =>
+    refine ⟨fun _ => rfl, ?_⟩
+    intro _ k conf spec
+    cases k <;> simp [enforcedLimitsWith, advertisedLimits, coverConfigWith, coverOne, maxOver, paramField]
 
 /-! ## shape of the Go code the atomic-step modelling relies on -/
 
@@ -444,10 +463,11 @@ theorem atomic_steps_lock_at_entry : Uquic.Gen.Streams.allLockAtEntry = true := 
 
 /-- Every dispatch branch of `Conn.handleFrames` (STREAM, ACK, DATAGRAM, the rest) skips handling once
     an earlier frame of the packet failed; `configCoveringAdvertised` derives each stream limit from
-    the parameter of the same stream type (both regenerated from /repo). -/
+    the parameter of the same stream type and from nothing else (both regenerated from /repo). -/
 theorem glue_shape : Uquic.Gen.Streams.allSkipGuards = true ∧
     Uquic.Gen.Streams.coverBidiSources = ["MaxBidiStreamNum"] ∧
-    Uquic.Gen.Streams.coverUniSources = ["MaxUniStreamNum"] ∧ Uquic.Gen.Streams.coverKeepsConfig = true := by
+    Uquic.Gen.Streams.coverUniSources = ["MaxUniStreamNum"] ∧ Uquic.Gen.Streams.coverKeepsConfig = false ∧
+    Uquic.Gen.Streams.coverShape = "advertised" := by
   decide
 
 end Uquic.Props.C15
